@@ -231,6 +231,14 @@ func genOverlay(flavour string) (string, error) {
 	}
 	// harness files -> package absnfs
 	for _, f := range listGo(filepath.Join(verifDir, "harness")) {
+		// *_sched.go only exists in the sched flavour, *_nosched.go in the others
+		if strings.HasSuffix(f, "_nosched.go") {
+			if flavour == "sched" {
+				continue
+			}
+		} else if strings.HasSuffix(f, "_sched.go") && flavour != "sched" {
+			continue
+		}
 		repl[filepath.Join(repoDir, "zz_verif_"+f)] = filepath.Join(verifDir, "harness", f)
 	}
 	// flavour marker file
